@@ -29,6 +29,8 @@ RULES = {
     "R-GROUP-CONSTS": ("rules.arith", "r_group_consts"),
     "R-HASH-TAINT": ("rules.arith", "r_hash_taint"),
     "R-INDEX-BOUNDED": ("rules.arith", "r_index_bounded"),
+    "R-SAME-GROUP": ("rules.arith", "r_same_group"),
+    "R-SHRINK-DECISION": ("rules.lookup", "r_shrink_decision"),
     "R-SET-DELEGATION": ("rules.derived", "r_set_delegation"),
     "R-SET-EQUIV-ASSERT": ("rules.derived", "r_set_equiv_assert"),
     "R-EQ-LEN": ("rules.derived", "r_eq_len"),
@@ -115,7 +117,7 @@ PROPS["C03"] = {
 }
 
 PROPS["C01"] = {
-    "rules": ["R-PROBE-STOP", "R-CTRL-WRITE", "R-SLOT-PROVENANCE", "R-SLOT-FRESH", "R-BUCKET-FRESH", "R-KEEP-KEY", "R-HASH-SOURCE", "R-ACCT", "R-RESERVE-GUARD", "R-REHASH-DECISION"],
+    "rules": ["R-PROBE-STOP", "R-CTRL-WRITE", "R-SLOT-PROVENANCE", "R-SLOT-FRESH", "R-BUCKET-FRESH", "R-KEEP-KEY", "R-HASH-SOURCE", "R-ACCT", "R-RESERVE-GUARD", "R-REHASH-DECISION", "R-SAME-GROUP"],
     "level": "other",
     "decided": "the mechanisms the property rests on are structurally intact on every path: lookups stop only at an EMPTY byte and all search loops agree (R-PROBE-STOP); control bytes are written only through mirror-maintaining primitives (R-CTRL-WRITE); "
                "every insert slot passes through the small-table fix-up (R-SLOT-PROVENANCE) and is consumed before any other mutation, buckets are not used across a rehash (R-SLOT-FRESH, R-BUCKET-FRESH); free-slot accounting (R-ACCT); growth decisions (R-RESERVE-GUARD, R-REHASH-DECISION)",
@@ -123,7 +125,7 @@ PROPS["C01"] = {
 }
 
 PROPS["C09"] = {
-    "rules": ["R-ITEMS-GUARD", "R-CURSOR-STATE", "R-FORWARD", "R-CLONE-FIELDS", "R-DEFAULT-EMPTY"],
+    "rules": ["R-ITEMS-GUARD", "R-CURSOR-STATE", "R-FORWARD", "R-CLONE-FIELDS", "R-DEFAULT-EMPTY", "R-DRAIN-PROTOCOL", "R-OWNING-ITER"],
     "level": "other",
     "decided": "the count-bounded group walk is guarded by items != 0 and decrements items exactly once per yielded element, size_hint is (items, Some(items)), fold receives items (R-ITEMS-GUARD: fused, exact length reporting); "
                "every wrapper iterator forwards next/size_hint/fold/len to the same inner cursor (R-FORWARD); hand-written Clone impls copy field i from field i (R-CLONE-FIELDS); default iterators are built over the static empty table (R-DEFAULT-EMPTY)",
@@ -184,7 +186,7 @@ PROPS["C13"] = {
 }
 
 PROPS["C08"] = {
-    "rules": ["R-NOALLOC-REACH", "R-RESERVE-GUARD", "R-LAYOUT-SOURCE", "R-SINGLETON-GUARD", "R-FIELD-IMMUT", "R-LINEAR-INNER", "R-ACCT", "R-WINDOW"],
+    "rules": ["R-NOALLOC-REACH", "R-RESERVE-GUARD", "R-SHRINK-DECISION", "R-LAYOUT-SOURCE", "R-SINGLETON-GUARD", "R-FIELD-IMMUT", "R-LINEAR-INNER", "R-ACCT", "R-WINDOW"],
     "level": "other",
     "decided": "new/default/with_capacity(0) cannot reach the allocator and clear/drain keep the allocation (R-NOALLOC-REACH); no allocation while additional <= growth_left, insert grows only when growth_left == 0 and the slot is EMPTY, capacity() = items + growth_left (R-RESERVE-GUARD); "
                "allocation_size() reports the size of the very layout the block was allocated with (R-LAYOUT-SOURCE, R-FIELD-IMMUT); shrink_to releases the old table on every path (R-LINEAR-INNER); clear recomputes growth_left from the bucket mask, replace_bucket_with restores it (R-ACCT); shrinking moves elements only through the guarded resize (R-WINDOW)",
@@ -200,7 +202,7 @@ PROPS["C14"] = {
 }
 
 PROPS["C06"] = {
-    "rules": ["R-RESERVE-FIRST", "R-SLOT-FRESH", "R-PROBE-STOP", "R-ACCT", "R-CTRL-WRITE", "R-MANYMUT", "R-FORWARD", "R-ENTRY-NOEFFECT"],
+    "rules": ["R-RESERVE-FIRST", "R-SLOT-FRESH", "R-PROBE-STOP", "R-SAME-GROUP", "R-ACCT", "R-CTRL-WRITE", "R-MANYMUT", "R-FORWARD", "R-ENTRY-NOEFFECT"],
     "level": "other",
     "decided": "find_or_find_insert_slot reserves before searching (R-RESERVE-FIRST); the slot of a VacantEntry is consumed before any other mutation and insert_in_slot re-reads the slot's control byte (R-SLOT-FRESH); iter_hash stops exactly where find stops: on EMPTY, never on a tombstone (R-PROBE-STOP); "
                "tombstone reuse by insert_unique costs no capacity (R-ACCT); mirrored control bytes (R-CTRL-WRITE); HashTable::get_many_mut goes through the checked path (R-MANYMUT); the seven table iterators forward to the raw cursor (R-FORWARD)",
@@ -208,7 +210,7 @@ PROPS["C06"] = {
 }
 
 PROPS["C07"] = {
-    "rules": ["R-SET-DELEGATION", "R-SET-EQUIV-ASSERT", "R-KEEP-KEY", "R-SLOT-FRESH", "R-EQ-LEN", "R-PROBE-STOP", "R-HASH-SOURCE"],
+    "rules": ["R-SET-DELEGATION", "R-SET-EQUIV-ASSERT", "R-KEEP-KEY", "R-SLOT-FRESH", "R-EQ-LEN", "R-PROBE-STOP", "R-SAME-GROUP", "R-HASH-SOURCE"],
     "level": "other",
     "decided": "the operator forms |, &, ^, - call union/intersection/symmetric_difference/difference with (self, rhs) in that order, is_superset swaps its operands, symmetric_difference chains both differences, the filtering iterators probe the other operand, "
                "and the basic operations forward to the map (R-SET-DELEGATION: 'agree with them' by construction); get_or_insert_with stores only after the equivalence assertion succeeded (R-SET-EQUIV-ASSERT); replace stores the new value, get_or_insert keeps the old (R-KEEP-KEY); "
